@@ -3312,3 +3312,100 @@ func ruleTrustedHeaderChecked(c *Ctx) {
 		c.OK("trusted-header-checked.same-batch", c.P.Pos(stores[0].call.Pos()), "the batch is not reassigned between the trusted-header comparison and the store")
 	}
 }
+
+// ---------------------------------------------------------------------------
+// rc-curr-released (C11) - another piece of the rc-typestate that was planned: the structural functions of the trie
+// receive the node they work on (`curr`) counted. On every path that returns normally the node is either released
+// (removeRef with its hash, also through a hash captured in a local), kept as it is (returned, or stored whole into
+// a new node), or handed whole to another structural function. A path that rebuilds the subtree from the node's
+// *contents* (its value, its children) without releasing the node leaves a reference nobody holds: the stored
+// counter ends one too high, the record is never deleted and never collected.
+func ruleRCCurrReleased(c *Ctx) {
+	pk := c.P.Pkg("pkg/core/mpt")
+	if pk == nil {
+		c.Lost("rc-curr-released.anchor", "package mpt not found")
+		return
+	}
+	n := 0
+	for _, fd := range c.P.AllFuncDecls() {
+		if fd.Pkg != pk || fd.Decl.Body == nil || fd.Decl.Recv == nil {
+			continue
+		}
+		sig := fd.Obj.Type().(*types.Signature)
+		if !namedTypeIs(sig.Recv().Type(), "pkg/core/mpt", "Trie") || sig.Params().Len() == 0 {
+			continue
+		}
+		name := fd.Obj.Name()
+		if !(strings.HasPrefix(name, "putInto") || strings.HasPrefix(name, "putBatchInto") || strings.HasPrefix(name, "deleteFrom")) {
+			continue
+		}
+		p0 := sig.Params().At(0)
+		kind := ""
+		if pt, ok := p0.Type().(*types.Pointer); ok {
+			if nt, ok := pt.Elem().(*types.Named); ok {
+				kind = nt.Obj().Name()
+			}
+		}
+		if kind != "LeafNode" && kind != "BranchNode" && kind != "ExtensionNode" {
+			continue // interface-typed dispatchers and hash nodes (not counted themselves)
+		}
+		f := c.P.NewFuncCFG(fd)
+		info := fd.Pkg.TypesInfo
+		isCurr := func(e ast.Expr) bool {
+			id, ok := ast.Unparen(e).(*ast.Ident)
+			return ok && info.ObjectOf(id) == p0
+		}
+		var must []site
+		for _, b := range f.G.Blocks {
+			if !b.Live {
+				continue
+			}
+			for i, nd := range b.Nodes {
+				hit := false
+				inspectNoLit(nd, func(x ast.Node) bool {
+					switch y := x.(type) {
+					case *ast.CallExpr:
+						cs := f.calleeSym(y)
+						if cs == "pkg/core/mpt.(*Trie).removeRef" && len(y.Args) > 0 && f.Mentions(y.Args[0], b)["param#0"] {
+							hit = true
+						}
+						for _, a := range y.Args {
+							if isCurr(a) && strings.HasPrefix(cs, "pkg/core/mpt.(*Trie).") {
+								hit = true // handed on whole to another structural function
+							}
+						}
+					case *ast.AssignStmt:
+						for i, r := range y.Rhs {
+							if isCurr(r) && i < len(y.Lhs) {
+								if _, isIdent := y.Lhs[i].(*ast.Ident); !isIdent {
+									hit = true // stored whole into another node
+								}
+							}
+						}
+					case *ast.ReturnStmt:
+						if len(y.Results) > 0 && isCurr(y.Results[0]) {
+							hit = true
+						}
+					}
+					return true
+				})
+				if hit {
+					must = append(must, site{blk: b, idx: i, node: nd})
+				}
+			}
+		}
+		oks := f.OKReturns()
+		if len(oks) == 0 {
+			continue
+		}
+		n++
+		key := "rc-curr-released." + FuncKey(fd.Obj)
+		// a return that itself returns curr is a must-site in its own block: mustBefore handles same-block order
+		if ok, path := f.mustBefore(f.Entry(), oks, must, nil); ok {
+			c.OK(key, c.P.Pos(fd.Decl.Pos()), "on every normally returning path the node is released, kept whole or handed on whole")
+		} else {
+			c.Fail(key, c.P.Pos(fd.Decl.Pos()), fmt.Sprintf("%s can return normally without releasing the %s it was given (no removeRef of its hash), without keeping it whole and without handing it on: the subtree is rebuilt from its contents while its own reference stays counted", FuncKey(fd.Obj), kind), path...)
+		}
+	}
+	c.Floor("structural trie functions receiving a counted node", n, 6)
+}
